@@ -792,7 +792,7 @@ theorem inotify_good {H R} {inv : Invoice} {ctx : Ctx} (hg : Good H R inv) (hR :
           by_cases c : (ctx.amp && ctx.mpp.isNone) = true
           · simp [c] at hu
           · simp only [c, Bool.false_eq_true, if_false] at hu
-            cases hm : ctx.mpp with
+            cases hm : effMpp ctx with
             | none => rw [hm] at hu; exact applyAdd_legacy_good hg hR hfresh hu ha
             | some ta =>
               obtain ⟨t, a⟩ := ta
@@ -965,7 +965,7 @@ theorem updateInvoice_settle {H : Nat → Nat} {ctx : Ctx} {inv : Invoice} {u : 
   by_cases c : (ctx.amp && ctx.mpp.isNone) = true
   · simp [c] at hu
   · rw [if_neg c] at hu
-    cases hm : ctx.mpp with
+    cases hm : effMpp ctx with
     | none =>
       rw [hm] at hu; simp only at hu
       obtain ⟨h, ns, rfl⟩ := updateLegacy_settle hu
@@ -973,7 +973,12 @@ theorem updateInvoice_settle {H : Nat → Nat} {ctx : Ctx} {inv : Invoice} {u : 
       have : ctx.amp = false := by
         cases hb : ctx.amp
         · rfl
-        · simp [hb, hm] at c
+        · have hmn : ctx.mpp = none := by
+            unfold effMpp at hm
+            cases hq : ctx.mpp with
+            | none => rfl
+            | some m => simp [hq] at hm
+          simp [hb, hmn] at c
       exact ⟨by rw [this, ha], h, ns, rfl, by rw [hh]; rfl, by rw [hh]; rfl⟩
     | some ta =>
       obtain ⟨t, a⟩ := ta
@@ -1040,7 +1045,7 @@ theorem inotify_settle {H R} {inv inv' : Invoice} {ctx : Ctx} {k : SettleKind} {
             by_cases c : (ctx.amp && ctx.mpp.isNone) = true
             · simp [c] at hu
             · rw [if_neg c] at hu
-              cases hm : ctx.mpp with
+              cases hm : effMpp ctx with
               | none =>
                 rw [hm] at hu; simp only at hu
                 obtain ⟨_, _, _, _, _, _, _, _, hcase⟩ := updateLegacy_add hu
@@ -1064,7 +1069,7 @@ theorem inotify_settle {H R} {inv inv' : Invoice} {ctx : Ctx} {k : SettleKind} {
             by_cases c : (ctx.amp && ctx.mpp.isNone) = true
             · simp [c] at hu
             · rw [if_neg c] at hu
-              cases hm : ctx.mpp with
+              cases hm : effMpp ctx with
               | none =>
                 rw [hm] at hu; simp only at hu
                 obtain ⟨_, _, _, _, _, _, _, _, hcase⟩ := updateLegacy_add hu
@@ -1363,7 +1368,7 @@ theorem notify_good {H R} {cfg : Cfg} {reg : Reg} {ctx : Ctx} (hg : RegGood H R 
       · rw [if_pos c] at hpre; exact processKeySend_good hg hpre
       · rw [if_neg c] at hpre; cases hpre; exact hg
     simp only
-    cases hl : lookup cfg reg1.invs ctx.hash ctx.mpp ctx.amp with
+    cases hl : lookup cfg reg1.invs ctx.hash (refAddr ctx) (ctx.amp && ctx.pathID.isNone) with
     | none => exact hg1
     | some inv =>
       simp only
@@ -1462,7 +1467,7 @@ theorem notify_settles {H R} {cfg : Cfg} {reg : Reg} {ctx : Ctx} (hg : RegGood H
       · rw [if_pos c] at hpre; exact processKeySend_good hg hpre
       · rw [if_neg c] at hpre; cases hpre; exact hg
     simp only
-    cases hl : lookup cfg reg1.invs ctx.hash ctx.mpp ctx.amp with
+    cases hl : lookup cfg reg1.invs ctx.hash (refAddr ctx) (ctx.amp && ctx.pathID.isNone) with
     | none => simp
     | some inv =>
       simp only
@@ -1480,7 +1485,7 @@ theorem notify_settles {H R} {cfg : Cfg} {reg : Reg} {ctx : Ctx} (hg : RegGood H
           intro kind p ht hf
           have := fixHeight_settle hf
           subst this
-          exact inotify_settle hgi hR (fun ha => (hhash ha).symm) hn
+          exact inotify_settle hgi hR (fun ha => (hhash (by simp [ha])).symm) hn
         refine ⟨?_, ?_⟩
         · intro kind p ht hrep
           simp at hrep
@@ -1801,7 +1806,7 @@ theorem step_mono {H R} {cfg : Cfg} {reg : Reg} {e : Event} (hg : RegGood H R re
         · rw [if_pos c] at hpre; exact processKeySend_good hg hpre
         · rw [if_neg c] at hpre; cases hpre; exact hg
       simp only
-      cases hl : lookup cfg reg1.invs ctx.hash ctx.mpp ctx.amp with
+      cases hl : lookup cfg reg1.invs ctx.hash (refAddr ctx) (ctx.amp && ctx.pathID.isNone) with
       | none => exact ⟨i, hsub i hi, Mono.refl i⟩
       | some inv =>
         simp only
